@@ -547,3 +547,41 @@ class Reach(object):
                 continue
             out[name] = sum(1 for n in nums if (rel, n) in self.hits)
         return out
+
+
+# ----------------------------------------------------------------------------- global state
+
+def global_state():
+    """Process-wide state a library call must leave alone ("no call affects a later one"):
+    every registered pandas option, numpy error/print settings, the random generators, cwd,
+    environment variables, recursion limit, decimal context."""
+    import decimal
+    import hashlib
+    import random as _random
+    import numpy as np
+    import pandas as pd
+    out = {}
+    try:
+        from pandas._config import config as _cfg
+        for k in sorted(_cfg._registered_options):
+            try:
+                out['pd:' + k] = repr(_cfg._get_option(k, silent=True) if hasattr(_cfg, '_get_option')
+                                      else pd.get_option(k))
+            except Exception:
+                pass
+    except Exception:
+        for k in ('future.infer_string', 'mode.copy_on_write', 'mode.chained_assignment',
+                  'display.max_rows', 'mode.use_inf_as_na'):
+            try:
+                out['pd:' + k] = repr(pd.get_option(k))
+            except Exception:
+                pass
+    out['np.geterr'] = repr(sorted(np.geterr().items()))
+    out['np.printoptions'] = repr(sorted((k, repr(v)) for k, v in np.get_printoptions().items()))
+    out['random.state'] = hashlib.sha1(repr(_random.getstate()).encode()).hexdigest()[:12]
+    out['np.random.state'] = hashlib.sha1(repr(np.random.get_state()).encode()).hexdigest()[:12]
+    out['cwd'] = os.getcwd()
+    out['environ'] = hashlib.sha1(repr(sorted(os.environ.items())).encode()).hexdigest()[:12]
+    out['recursionlimit'] = sys.getrecursionlimit()
+    out['decimal.prec'] = decimal.getcontext().prec
+    return out
